@@ -22,14 +22,15 @@ def arg_tok(a):
         return "f:%d" % v
     return "s:" + "".join("%02x" % c for c in v)
 
-def run_impl(exe, jobs, timeout=600, mem=None, gc_mode=0):
+def run_impl(exe, jobs, timeout=600, mem=None, gc_mode=0, never_path=None):
     """jobs: [(id, source text, [args])] -> {id: dict(status, value, exc, is_assert, out(bytes), end)}"""
     inp = bytearray(("gc %d\n" % gc_mode).encode())
     for jid, src, args in jobs:
         b = src.encode("latin1")
         inp += ("prog %s %d %d %d %d %s\n" % (jid, len(b), mem or MEM, STACK, len(args), " ".join(arg_tok(a) for a in args))).encode()
         inp += b + b"\n"
-    env = dict(os.environ, ASAN_OPTIONS="detect_leaks=0:abort_on_error=1", UBSAN_OPTIONS="print_stacktrace=0")
+    env = dict(os.environ, ASAN_OPTIONS="detect_leaks=0:abort_on_error=1", UBSAN_OPTIONS="print_stacktrace=0",
+               NEVER_PATH=(never_path + ":" if never_path else "") + os.path.join(REPO, "sample", "lib"))   # `use m`
     r = subprocess.run([exe], input=bytes(inp), stdout=subprocess.PIPE, stderr=subprocess.PIPE, env=env, timeout=timeout)
     out = r.stdout
     res = {}
@@ -131,7 +132,7 @@ def verdict(i, m):
         return "disagree", "impl %s exc=%s assert=%s, model assert failed" % (i["status"], i["exc"], i["is_assert"])
     return "model_gap", "unknown model kind " + k
 
-def run_pairs(exe, progs, fuel=FUEL):
+def run_pairs(exe, progs, fuel=FUEL, never_path=None):
     """progs: [(id, prog AST, args)] -> {id: (class, detail, impl, model)}"""
     ij, mj, bad = [], [], {}
     for jid, prog, args in progs:
@@ -142,14 +143,17 @@ def run_pairs(exe, progs, fuel=FUEL):
             bad[jid] = ("unsupported", str(u), None, None)
             continue
         ij.append((jid, src, args)); mj.append((jid, se, args, fuel))
-    ir, ierr = run_impl(exe, ij)
-    mr, merr = run_model(mj)
+    ir, ierr = run_impl(exe, ij, never_path=never_path)
+    try:
+        mr, merr = run_model(mj, timeout=120)
+    except subprocess.TimeoutExpired:
+        mr, merr = {}, ""   # a runaway program (the evaluator's fuel bounds depth, not work): find it one by one
     missing = [j for j in mj if str(j[0]) not in mr]
     if missing:
         # the model process died (e.g. native stack overflow on a runaway program): re-run one by one
         for j in missing:
             try:
-                one, _ = run_model([j], timeout=120)
+                one, _ = run_model([j], timeout=(120 if len(missing) < 5 else 20))
             except subprocess.TimeoutExpired:
                 one = {}
             mr[str(j[0])] = one.get(str(j[0]), dict(kind="modeldied", value="-", out=b"", clos="", raised=[]))
@@ -165,7 +169,7 @@ import copy
 
 EXPR_TAGS = {"int", "long", "float", "double", "char", "str", "bool", "nil", "recnil", "var", "un", "bin", "and", "or", "cond",
              "assign", "seq", "while", "dowhile", "for", "forin", "call", "builtin", "lam", "arrlit", "arrnew", "index",
-             "record", "tuple", "field", "enumval", "enumrec", "match", "iflet", "listcomp"}
+             "record", "tuple", "field", "enumval", "enumrec", "match", "iflet", "listcomp", "range", "slice", "pipe"}
 
 def is_expr(x):
     return isinstance(x, list) and x and isinstance(x[0], str) and x[0] in EXPR_TAGS
@@ -432,17 +436,33 @@ KNOWN_DEFECT_PROBES = [
      "func outer(k : int) -> int\n{\n    func g(n : int, s : int) -> int\n    {\n        func h(m : int) -> int { m <= 0 ? k + s : g(m - 1, s + 3) + 1 };\n        h(n)\n    };\n    g(1, 100)\n}\nfunc main() -> int\n{\n    outer(5)\n}\n"),
     (("C02",), "constred-long-mul-reads-int-value",
      "func main() -> long\n{\n    4294967296L * 3L\n}\n"),
+    # a module's top-level bindings run BEFORE those of the modules it uses (when the main unit does not `use` them first):
+    # `let B = A + mb.X` reads mb.X uninitialised (release build: garbage; asserts on: gc_get_int assertion)
+    (("C02",), "module-bindings-initialised-before-used-modules",
+     "use ma\n\nfunc main() -> int\n{\n    print(ma.B);\n    0\n}\n",
+     {"ma": "module ma {\n    use mb\n    var A = print(1);\n    let B = A + mb.X;\n    func fa(x : int) -> int { A = A + x; A + B }\n}\n",
+      "mb": "module mb {\n    var X = print(2);\n    func fb(x : int) -> int { X = X + x; X }\n}\n"}),
 ]
 
 def run_known_probes(rep, exe):
     """each known defect of the pinned tree: a fixed witness; I vs S.  Still wrong -> finding
     (KNOWN-FINDING when listed); agrees with S -> repaired, nothing to say."""
     hits = []
-    for pids, sig, src in KNOWN_DEFECT_PROBES:
+    for probe in KNOWN_DEFECT_PROBES:
+        pids, sig, src = probe[:3]
+        mods = probe[3] if len(probe) > 3 else None
         if rep.pid not in pids:
             continue
-        prog = nevast.parse_program(src)
-        res = run_pairs(exe, [("probe", prog, [])])
+        mdir = None
+        if mods:
+            mdir = scratch_dir("probemods")
+            for mn, text in mods.items():
+                with open(os.path.join(mdir, mn + ".nev"), "w") as fh:
+                    fh.write(text)
+        prog = nevast.parse_program(src, (lambda n: mods.get(n)) if mods else None)
+        res = run_pairs(exe, [("probe", prog, [])], never_path=mdir)
+        if mdir:
+            shutil.rmtree(mdir, ignore_errors=True)
         c, det, i, m = res["probe"]
         if c == "agree":
             continue
@@ -457,6 +477,8 @@ def clear_replays(pid):
         except OSError:
             pass
 
+RANGE_SLICE_TAGS = ("range:", "slice:", "string:slice", "forin:over-", "forin:to-bound", "listcomp:over-", "listcomp2:over-", "fold:", "param:bounds-")
+
 def stream(rep, exe, tier, seed, n, knobs, twins, tag, small_heap=None):
     """generated programs (and their alpha-renamed twins) through I and S; disagreements are
     shrunk and reported.  Returns statistics."""
@@ -465,7 +487,7 @@ def stream(rep, exe, tier, seed, n, knobs, twins, tag, small_heap=None):
     st = dict(programs=0, runs=0, agree=0, rejected=0, skipped_model_crash=0, skipped_out_of_fuel=0, model_gap=0,
               disagree=0, twin_mismatch=0, clos_compared=0, clos_nonzero=0, clos_mismatch=0,
               outcomes=collections.Counter(), exceptions=collections.Counter(), exceptions_raised=collections.Counter(), constructs=collections.Counter(),
-              conds=0, nonconst_conds=0, progs_with_nonconst_cond=0, progs_with_output=0, samples=[])
+              conds=0, nonconst_conds=0, progs_with_nonconst_cond=0, progs_with_output=0, progs_with_ranges_or_slices=0, samples=[])
     chunk = 60
     done = 0
     reported = 0
@@ -511,6 +533,8 @@ def stream(rep, exe, tier, seed, n, knobs, twins, tag, small_heap=None):
                 st["programs"] += 1
                 for u in gs["used"]:
                     st["constructs"][u] += 1
+                if any(u.startswith(RANGE_SLICE_TAGS) for u in gs["used"]):
+                    st["progs_with_ranges_or_slices"] += 1
                 st["conds"] += gs["conds"]; st["nonconst_conds"] += gs["nonconst_conds"]
                 if gs["nonconst_conds"]:
                     st["progs_with_nonconst_cond"] += 1
@@ -694,6 +718,11 @@ def report_disagreement(rep, exe, jid, p, args, det):
         "the real pipeline and the reference evaluator disagree (shrunk from generated program %s)" % jid, q, args, r[1],
         extra="# stderr: %s\n" % ierr[-300:].replace("\n", " | ")), True)
 
+def sample_module_loader(name):
+    """`use name` of a sample program: /repo/sample/lib/name.nev (what NEVER_PATH points the real scanner at)"""
+    f = os.path.join(REPO, "sample", "lib", name + ".nev")
+    return open(f, encoding="latin1").read() if os.path.exists(f) else None
+
 def sample_corpus(rep, exe, roundtrip=False):
     """the hand corpus: every /repo/sample/*.nev that lies inside the modelled core, parsed by
     nevast.parse_program (own parser), printed back and compared (I on the ORIGINAL text, I on the
@@ -705,7 +734,7 @@ def sample_corpus(rep, exe, roundtrip=False):
         name = os.path.basename(f)[:-4]
         src = open(f, encoding="latin1").read()
         try:
-            p = nevast.parse_program(src)
+            p = nevast.parse_program(src, sample_module_loader)
             nevast.prog_sexpr(p); nevast.prog_src(p)
         except nevast.Unsupported as u:
             why["outside core: " + str(u).split(" ")[0]] += 1; continue
@@ -715,7 +744,8 @@ def sample_corpus(rep, exe, roundtrip=False):
         if not mains or mains[0]["params"]:
             why["main takes parameters / no main"] += 1; continue
         progs.append((name, p, [])); origs.append((name, src, []))
-    st = dict(files=len(files), in_core=len(progs), agree=0, rejected_negative_samples=0, out_of_core_at_run_time=0,
+    linked = sum(1 for _, p, _ in progs if "modules" in p)
+    st = dict(files=len(files), in_core=len(progs), linked_with_modules_or_top_level_items=linked, agree=0, rejected_negative_samples=0, out_of_core_at_run_time=0,
               printer_roundtrip_mismatch=0, disagree=0, skipped=dict(why), with_output=0, roundtrip_checked=roundtrip)
     reported = 0
     for k in range(0, len(progs), 80):
